@@ -423,3 +423,51 @@ func LoadReplay(path string) (*Violation, error) {
 	}
 	return &v, nil
 }
+
+// CtxDump is what a worker sub-process hands back to the parent check: everything a check
+// accumulates in its Ctx (used by checks that run independent parts in separate processes because
+// the controlled scheduler allows one execution at a time per process).
+type CtxDump struct {
+	Evals      int64            `json:"evals"`
+	Nontrivial int64            `json:"nontrivial"`
+	States     int64            `json:"states"`
+	Trans      int64            `json:"trans"`
+	Traces     int64            `json:"traces"`
+	Counters   map[string]int64 `json:"counters"`
+	Samples    []any            `json:"samples"`
+	Violations []*Violation     `json:"violations"`
+	CapsHit    []string         `json:"caps_hit"`
+}
+
+// Export returns the accumulated state of c.
+func (c *Ctx) Export() *CtxDump {
+	c.mu.Lock()
+	defer c.mu.Unlock()
+	d := &CtxDump{Evals: c.evals.Load(), Nontrivial: c.nontrivial.Load(), States: atomic.LoadInt64(&c.states), Trans: atomic.LoadInt64(&c.trans),
+		Traces: atomic.LoadInt64(&c.traces), Counters: c.counters, Samples: c.samples, CapsHit: c.capsHit}
+	for _, k := range c.order {
+		d.Violations = append(d.Violations, c.violations[k])
+	}
+	return d
+}
+
+// Import merges a worker's dump into c.
+func (c *Ctx) Import(d *CtxDump) {
+	c.evals.Add(d.Evals)
+	c.nontrivial.Add(d.Nontrivial)
+	c.MC(d.States, d.Trans, d.Traces)
+	for k, v := range d.Counters {
+		c.Count(k, v)
+	}
+	for _, s := range d.Samples {
+		c.Sample(s)
+	}
+	for _, w := range d.CapsHit {
+		c.CapHit(w)
+	}
+	for _, v := range d.Violations {
+		for i := 0; i < v.Count; i++ {
+			c.Violate(v.Sub, v.Kind, v.Desc, v.Case, v.Detail)
+		}
+	}
+}
